@@ -14,6 +14,9 @@ def _(p):
     fam = [mc.T(f, l) for f, l in p["terms"]]
     layout = p.get("layout") or "crossed7"
     df = mc.full_frame(p["a"], p["b"], index=p.get("index"), layout=layout)
+    if p.get("dtypes"):  # numeric columns of other dtypes (values must be representable: the harness passes integers)
+        for col, dt in p["dtypes"].items():
+            df[col] = df[col].astype(dt)
     kw = {"materializer": p["materializer"]} if p.get("materializer") else {}
     mm = model_matrix(p["formula"], df, ensure_full_rank=p["efr"], output=p["output"], **kw)
     if p["output"] == "sparse":
